@@ -736,4 +736,86 @@ theorem normalizeO_serdeValue : ∀ (kvs l : List (Str × JVal)), normalizeO kvs
     exact normalizeO_cons_ok.mpr ⟨v', t', normalize_serdeValue v v' h1, normalizeO_serdeValue t t' h2, h3⟩
 end
 
+/-! ### An overridden duplicate does not matter -/
+
+theorem getLast_append (a b : List (Str × α)) (x : Str) :
+    getLast (a ++ b) x = (getLast b x).or (getLast a x) := by
+  induction a with
+  | nil => cases h : getLast b x <;> simp [getLast, h]
+  | cons e t ih =>
+    obtain ⟨ke, ve⟩ := e
+    simp only [List.cons_append, getLast, ih]
+    cases getLast b x <;> simp
+
+theorem getLast_isSome_of_mem (l : List (Str × α)) (k : Str) (h : k ∈ Obj.keys l) : (getLast l k).isSome := by
+  induction l with
+  | nil => simp [Obj.keys] at h
+  | cons e t ih =>
+    obtain ⟨ke, ve⟩ := e
+    simp only [getLast]
+    cases hg : getLast t k with
+    | some x => rfl
+    | none =>
+      simp only [Obj.keys, List.map_cons, List.mem_cons] at h
+      rcases h with h | h
+      · simp [h]
+      · have := ih h; rw [hg] at this; cases this
+
+theorem normalizeO_append {a b l : List (Str × JVal)} :
+    normalizeO (a ++ b) = .ok l ↔ ∃ la lb, normalizeO a = .ok la ∧ normalizeO b = .ok lb ∧ l = la ++ lb := by
+  induction a generalizing l with
+  | nil =>
+    simp only [List.nil_append]
+    constructor
+    · intro h; exact ⟨[], l, rfl, h, rfl⟩
+    · rintro ⟨la, lb, h1, h2, h3⟩
+      simp [normalizeO] at h1; subst h1; rw [h3, h2]; rfl
+  | cons e t ih =>
+    obtain ⟨k, v⟩ := e
+    rw [List.cons_append, normalizeO_cons_ok]
+    constructor
+    · rintro ⟨v', t', h1, h2, h3⟩
+      obtain ⟨la, lb, h4, h5, h6⟩ := ih.mp h2
+      exact ⟨(k, v') :: la, lb, normalizeO_cons_ok.mpr ⟨v', la, h1, h4, rfl⟩, h5, by rw [h3, h6]; rfl⟩
+    · rintro ⟨la, lb, h1, h2, h3⟩
+      obtain ⟨v', la', h4, h5, h6⟩ := normalizeO_cons_ok.mp h1
+      exact ⟨v', la' ++ lb, h4, ih.mpr ⟨la', lb, h5, h2, rfl⟩, by rw [h3, h6]; rfl⟩
+
+theorem ofList_drop_shadowed (lp lm : List (Str × α)) (k : Str) (c0 : α) (hk : k ∈ Obj.keys lm) :
+    Obj.ofList (lp ++ (k, c0) :: lm) = Obj.ofList (lp ++ lm) := by
+  apply sorted_ext _ _ (ofList_sorted _) (ofList_sorted _)
+  intro x
+  rw [get_ofList, get_ofList, getLast_append, getLast_append]
+  congr 1
+  simp only [getLast]
+  cases hg : getLast lm x with
+  | some y => rfl
+  | none =>
+    by_cases hx : k = x
+    · subst hx
+      have := getLast_isSome_of_mem lm k hk
+      rw [hg] at this; cases this
+    · simp [hx]
+
+theorem normalize_drop_shadowed (pre rest : List (Str × JVal)) (k : Str) (v0 c0 : JVal)
+    (h0 : normalize v0 = .ok c0) (hk : k ∈ Obj.keys rest) :
+    normalize (.obj (pre ++ (k, v0) :: rest)) = normalize (.obj (pre ++ rest)) := by
+  rw [normalize, normalize]
+  cases hB : normalizeO (pre ++ rest) with
+  | ok l =>
+    obtain ⟨lp, lm, h1, h2, h3⟩ := normalizeO_append.mp hB
+    have hA : normalizeO (pre ++ (k, v0) :: rest) = .ok (lp ++ (k, c0) :: lm) :=
+      normalizeO_append.mpr ⟨lp, (k, c0) :: lm, h1, normalizeO_cons_ok.mpr ⟨c0, lm, h0, h2, rfl⟩, rfl⟩
+    rw [hA]
+    simp only
+    rw [h3, ofList_drop_shadowed lp lm k c0 (by rw [normalizeO_keys rest lm h2]; exact hk)]
+  | error e =>
+    cases hA : normalizeO (pre ++ (k, v0) :: rest) with
+    | error e' => rw [err_eq e e']
+    | ok l =>
+      obtain ⟨lp, lm', h1, h2, _⟩ := normalizeO_append.mp hA
+      obtain ⟨_, lm, _, h4, _⟩ := normalizeO_cons_ok.mp h2
+      have := normalizeO_append.mpr ⟨lp, lm, h1, h4, rfl⟩
+      rw [hB] at this; cases this
+
 end Ruma.Canonical
